@@ -5,7 +5,9 @@ import os
 VERIF = os.path.dirname(os.path.dirname(os.path.abspath(__file__)))
 
 TECH = 'Verus contracts (requires/ensures/invariants) on functions re-extracted verbatim from /repo each run; modular SMT proof for all inputs'
-NOTE = ('Trusted: hand-written contracts of dependency crates in /verif/shim (listed per run in evidence.coverage.trusted_base), '
+NOTE = ('Trusted: hand-written contracts of dependency crates in /verif/shim (listed per run in evidence.coverage.trusted_base) - except those '
+        'verified on the dependency\'s own registry source against the same contract text in worlds deps_cw / deps_math / deps_storage '
+        '(DESIGN.md 11.12; listed per run in evidence.coverage.dependency_contracts_verified), '
         'the environment contract of DESIGN.md section 4, structural derive(Clone/PartialEq), String/Vec extensionality. '
         'Extraction rewrites R1-R10 / annotations A1-A4 (DESIGN.md 2.2 and 11.2, counted per run in evidence) are the only differences from the compiled text.')
 
